@@ -462,6 +462,7 @@ type c20Obs struct {
 	Res    string     `json:"res"`
 	Bcasts []c20Bcast `json:"bcasts"`
 	// for generators
+	pubs       []c20Pub
 	cursor     string
 	suppressed bool
 	isErr      bool
@@ -473,6 +474,12 @@ func (o c20Obs) coq() string {
 		xs[i] = b.coq()
 	}
 	return vPair(o.Res, vList(xs))
+}
+
+// c20Count accumulates a counter in the evidence's "extra" section.
+func c20Count(w *verifW, key string, n int) {
+	v, _ := w.Extra[key].(int)
+	w.Extra[key] = v + n
 }
 
 func (e *c20Env) takeLog() []c20Bcast {
@@ -531,6 +538,7 @@ func (e *c20Env) exec(o c20Op) (obs c20Obs) {
 		default:
 			obs.Res = vApp("RState", vApp("StOk", c20PubsCoq(c20Pubs(res.Publications)), e.pos(res.Position).coq(), vStr(res.Cursor)))
 			obs.cursor = res.Cursor
+			obs.pubs = c20Pubs(res.Publications)
 		}
 	case "rstream":
 		res, err := e.b.ReadStream(ctx, name, MapReadStreamOptions{Filter: StreamFilter{Since: e.spOf(o.Rev), Limit: o.Limit, Reverse: o.Reverse}})
